@@ -3,6 +3,8 @@ use crate::core::{Ctx, Stats};
 use serde_json::Value;
 
 pub mod c01;
+pub mod c02;
+pub mod c03;
 pub mod c04;
 pub mod c05;
 pub mod c06;
@@ -20,6 +22,16 @@ pub mod c18;
 pub mod c19;
 
 pub fn run(ctx: &Ctx, st: &mut Stats) -> bool {
+    match ctx.prop.as_str() {
+        "C02" => c02::run(ctx, st),
+        "C03" => c03::run(ctx, st),
+        _ => return run_one(ctx, st),
+    }
+    true
+}
+
+/// the self-contained drivers (everything except the composed C02 / C03)
+pub fn run_one(ctx: &Ctx, st: &mut Stats) -> bool {
     match ctx.prop.as_str() {
         "C01" => c01::run(ctx, st),
         "C04" => c04::run(ctx, st),
@@ -44,6 +56,18 @@ pub fn run(ctx: &Ctx, st: &mut Stats) -> bool {
 }
 
 pub fn replay(prop: &str, case: &Value, st: &mut Stats) -> bool {
+    if prop == "C02" || prop == "C03" {
+        // composed drivers: the case says which oracle produced it
+        if prop == "C03" && c03::replay(case, st) {
+            return true;
+        }
+        for p in ["C01", "C04", "C05", "C06", "C07", "C08", "C09", "C10", "C11", "C12", "C13", "C14", "C15", "C16", "C17", "C18", "C19"] {
+            if replay(p, case, st) {
+                return true;
+            }
+        }
+        return false;
+    }
     match prop {
         "C01" => c01::replay(case, st),
         "C04" => c04::replay(case, st),
